@@ -329,6 +329,8 @@ pub fn run_history(h: &History, scope: Scope, obs: &Obs) -> CheckResult {
     let mut m = Status::power_on(if h.bounded { Some(BOUNDED_CAP) } else { None });
     let mut stb_rich = 0;
     let mut mav_seen = [false, false];
+    let mut shared_ctx = Context::default();
+    let mut last_mav = false;
     for (si, step) in h.steps.iter().enumerate() {
         // device-side events
         for ev in &step.events {
@@ -361,11 +363,21 @@ pub fn run_history(h: &History, scope: Scope, obs: &Obs) -> CheckResult {
         dev.tst = step.tst;
         let bytes = render_step(step);
         let txt = escape(&bytes);
-        let mut ctx = Context::default();
-        ctx.mav = step.mav;
+        // Histories that start with a bounded queue use ONE Context for the whole history, and
+        // the interface writes its message-available flag only when it changes; the others use a
+        // fresh Context per message. (The library must never write the flag itself.)
+        if !h.bounded || si == 0 {
+            shared_ctx = Context::default();
+            last_mav = false;
+        }
+        if step.mav != last_mav {
+            shared_ctx.mav = step.mav;
+            last_mav = step.mav;
+        }
+        let ctx = &mut shared_ctx;
         mav_seen[step.mav as usize] = true;
         let mut resp: Vec<u8> = Vec::new();
-        let res = MIN_TREE.run(&bytes, &mut dev, &mut ctx, &mut resp);
+        let res = MIN_TREE.run(&bytes, &mut dev, ctx, &mut resp);
         // model, unit by unit
         let mut want_resp: Vec<u8> = Vec::new();
         let mut any_resp = false;
